@@ -598,7 +598,10 @@ def slice_verdict(res, prop, *, eval_fn, relevant, scenarios, traces_steps, orac
             note = ""
             if w is not None and oracle is not None:
                 st = run_witness(w)
-                f = oracle(w, st)
+                try:
+                    f = oracle(w, st, include_known=True)     # the reading that does not skip recorded findings
+                except TypeError:
+                    f = oracle(w, st)
                 note = " (witness re-executed on the real code: %s)" % ("still fails" if f else "NO LONGER FAILS")
             res.known.append("KNOWN-FINDING: property=%s %s%s" % (prop, o["text"], note))
     if val is not None and not refuting:
